@@ -544,12 +544,6 @@ Lemma mutation_view_r c T e0 vals r : cs_inv c -> mapped_okr c -> apply_mutation
         else c' = c.
 Proof.
   intros Hinv Hmo H. unfold apply_mutations in H.
-  assert (Hsame : forall c0, Ok (Continue c) = Ok r -> c0 = c ->
-            exists c', r = Continue c' /\ cs_inv c' /\ mapped_okr c' /\ s2c_grows c c' /\
-              (forall e, e <> e0 -> others_ok c c' e) /\ ((forall x h, ~ has c e0 x h) -> c' = c) /\
-              forall x h, has c e0 x h -> tick_gtb T (h_last h) = false \/ False -> c' = c).
-  { intros c0 E _. inversion E; subst r. exists c. split; [reflexivity|]. split; [exact Hinv|]. split; [exact Hmo|]. split; [apply s2c_grows_refl|].
-    split; [intros; apply others_ok_refl|]. split; auto. }
   destruct (al_get e0 (cl_s2c c)) as [cid|] eqn:Ee.
   2:{ inversion H; subst r. exists c. split; [reflexivity|]. split; [exact Hinv|]. split; [exact Hmo|]. split; [apply s2c_grows_refl|].
       split; [intros; apply others_ok_refl|]. split; [auto|]. intros x h (Hc & _). unfold centof in Hc. rewrite Ee in Hc. discriminate. }
